@@ -447,11 +447,11 @@ func c20ClassifyExit(x *engine.Exec, s *world.Snap, p world.Pos, err error) stri
 		// K-C05-share-ratio-precision: tokens -> shares -> tokens through 18-decimal ratios loses whole units from 2e16 base
 		// units on; the query and Undelegate price identically (checked separately), the round trip inside Undelegate does not
 		return ratioCause
-	case short && D != nil && D.Sign() > 0 && D.Cmp(ratI(1)) < 0:
+	case short && D != nil && D.Sign() > 0 && D.Cmp(ratI(1)) < 0 && historyHasSlash(x, -1, false):
 		return "full-exit-below-one-delegator-share"
 	case short && D != nil && vt != nil && vt.Sign() > 0 && world.RatInt(p.Reported).Cmp(p.Value) > 0 && ratMul(ratQuo(D, vt), ratSub(world.RatInt(p.Reported), p.Value)).Cmp(ratQuo(ratI(1), ratI(100))) >= 0 && needsMoreWholeShares(p, D, vt):
 		return "reported-balance-rounded-up-beyond-share-window"
-	case s.Assets[p.Denom].TotalValidatorShares.IsZero() && s.Assets[p.Denom].TotalTokens.IsPositive():
+	case s.Assets[p.Denom].TotalValidatorShares.IsZero() && s.Assets[p.Denom].TotalTokens.IsPositive() && historyHasSlash(x, -1, true):
 		return "asset-fully-slashed-total-without-shares"
 	}
 	return ""
